@@ -12,6 +12,7 @@ import (
 	"path/filepath"
 	"sort"
 	"strings"
+	"sync"
 	"time"
 
 	"golang.org/x/tools/go/callgraph"
@@ -115,8 +116,29 @@ func Load(cfg LoadConfig) (*Program, error) {
 	prog, _ := ssautil.AllPackages(pkgs, ssa.InstantiateGenerics)
 	prog.Build()
 	p.SSA = prog
+	for _, pk := range p.Pkgs {
+		progOf.Store(pk.Types, p)
+	}
 	p.Config = strings.Join(cfg.Env, ",") + " tags=" + cfg.Tags
 	return p, nil
+}
+
+// progOf: module package -> the Program it was loaded in (for evaluators that are handed a package only).
+var progOf sync.Map
+
+// ProgramOf returns the loaded Program a module package belongs to.
+func ProgramOf(pk *types.Package) *Program {
+	if v, ok := progOf.Load(pk); ok {
+		return v.(*Program)
+	}
+	return nil
+}
+
+// Release drops the registry entries of p (scratch variants).
+func (p *Program) Release() {
+	for _, pk := range p.Pkgs {
+		progOf.Delete(pk.Types)
+	}
 }
 
 // Pkg returns the package with the module-relative path rel ("" for root).
